@@ -439,6 +439,12 @@ def gen_trace(item):
         ambiguous codes only where the sequence visibly has the ambiguous alphabet)"""
         return rng.randrange(NSYM if any(c > 3 for c in cur["seq"]) else 4)
     feats = [_rand_feature(rng, lo, hi, key()) for _ in range(rng.randint(0, 4))] if hi >= lo else []
+    # "left overhang": an annotated sequence whose features begin upstream of the sequence (a gene that
+    # starts before the sequenced region); they must not reach beyond its end (Dom_LeftOverhang), where
+    # the omitted stop of the code and the unbounded stop of the specification would part
+    overhang = kind == "annseq" and n >= 1 and rng.random() < item.get("p_overhang", 0.2)
+    if overhang:
+        feats = [_rand_feature(rng, lo - 6, hi, key()) for _ in range(rng.randint(1, 4))]
     events = []
     obj = None
     for _step in range(item["length"]):
@@ -449,7 +455,9 @@ def gen_trace(item):
             cur = {k: events[-1][k] for k in ("ann", "seq", "start")}
             lo, hi = (cur["start"], cur["start"] + len(cur["seq"]) - 1) if kind == "annseq" else (-30, 60)
             cf = cur["ann"]
-            if kind == "annseq":
+            if overhang:
+                op = rng.choice(["slice"] * 6 + ["copy", "getint", "del"])
+            elif kind == "annseq":
                 op = rng.choice(["slice"] * 6 + ["getfeat"] * 3 + ["setfeat"] * 2 + ["revcomp"] * 2 +
                                 ["copy", "getint", "setint", "setslice", "add", "add", "del"])
             else:
@@ -856,6 +864,6 @@ def replay(record):
 
 MANIFEST = {
     "technique": "TLA+ per-base model of Location/Feature/Annotation/AnnotatedSequence (specs/C13) model-checked by TLC; every enumerated call and every transition of the history machine executed against the real classes; recorded random histories re-computed by TLC",
-    "level_text": "TLC enumerates every single call (slice with all bound combinations incl. open and empty ones, feature read/write, reverse complement, copy, container calls) on all annotated sequences of length <=4 with starts 1 and 3 carrying one feature of <=3 locations (both strands, pre-existing defects) or two one-location features, and on bare annotations over positions -2..2; the symbols range over both nucleotide alphabets (every one of the 15 IUPAC codes alone and in windows of a permutation of all codes under forward and reverse features, in assignments and in reverse_complement), the complement of a code being defined in the specification as the code of the complemented base set; it proves on that universe that the code-shaped clipping / concatenation / mirror arithmetic equals the per-base definitions, that write-then-read returns the written bases, that reverse complement is an involution preserving feature sequences and that nested slices equal direct ones. Each enumerated (call, result) pair and every transition of a 3-call history machine is executed against the real classes; longer sequences (<=40), other starts, negative positions and 1..4 locations are covered by recorded histories that TLC re-computes event by event.",
+    "level_text": "TLC enumerates every single call (slice with all bound combinations incl. open and empty ones, feature read/write, reverse complement, copy, container calls) on all annotated sequences of length <=4 with starts 1 and 3 carrying one feature of <=3 locations (both strands, pre-existing defects) or two one-location features, and on bare annotations over positions -2..2; the symbols range over both nucleotide alphabets (every one of the 15 IUPAC codes alone and in windows of a permutation of all codes under forward and reverse features, in assignments and in reverse_complement), the complement of a code being defined in the specification as the code of the complemented base set; it proves on that universe that the code-shaped clipping / concatenation / mirror arithmetic equals the per-base definitions, that write-then-read returns the written bases, that reverse complement is an involution preserving feature sequences and that nested slices equal direct ones. Each enumerated (call, result) pair and every transition of a 3-call history machine is executed against the real classes; longer sequences (<=40), other starts, negative positions and 1..4 locations are covered by recorded histories that TLC re-computes event by event. Recorded histories include annotated sequences whose features begin upstream of the sequence (Dom_LeftOverhang), sliced with omitted and given bounds.",
     "level_note": "Bounded: exhaustive only for length <=4 / <=3 locations; beyond that recorded histories. Locations of annotated sequences are assumed to lie inside the sequence, indexed features to have disjoint locations; protein sequences, an ambiguous-alphabet sequence object holding only ACGT at construction, slice steps, integer indices outside the sequence and Feature ordering are not decided. Trusted: TLC, the TLA+ value parser, the projection through the public iteration/properties.",
 }
